@@ -220,7 +220,7 @@ class Runner:
     def selftest(self, ob, mc, nseeds=40):
         d = self.odir(ob)
         cbin = os.path.join(d, 'st_c')
-        cmd = ['gcc', '-O1', '-w', '-I' + RT, '-DVERIF_ENTRY=' + ob.entry, '-DVERIF_KF_ACTIVE=%du' % self.kf_active] + dflags(ob.cdefs) + \
+        cmd = ['gcc', '-O1', '-w', '-falign-functions=16', '-I' + RT, '-DVERIF_ENTRY=' + ob.entry, '-DVERIF_KF_ACTIVE=%du' % self.kf_active] + dflags(ob.cdefs) + \
               [mc, os.path.join(RT, 'stubs.c')] + [os.path.join(VERIF, 'harness', s) for s in ob.extra_c()] + ['-lm', '-o', cbin]
         rc, so, se, w, _ = run(cmd, timeout=300)
         if rc != 0:
